@@ -704,3 +704,155 @@ Theorem C08_llt_solve_end_to_end_binary64 : forall tiny n (A b : list R),
 Proof. exact C08.RoundFactor64.llt_solve_end_to_end_binary64. Qed.
 Print Assumptions C08_llt_solve_end_to_end_binary64.
 (* non-vacuity: RoundFactor.llt_end_to_end_2x2_scale (eps = 1/8, n = 2: (3n+1) eps = 7/8 < 1, the run succeeds) *)
+
+(* ===================================================================================== factorisation + solve in ONE
+   statement for PLU and LDL^T (C08/RoundEndToEnd.v, RoundEndToEnd64.v; Higham Thm 9.4 and its LDL^T analogue), every
+   order n with 3 n eps < 1, every input on which the ROUNDED factorisation returns 0.  The two substitutions run on the
+   COMPUTED factors; each is the exact solution of a system with perturbed factor (Oettli-Prager, explicit), so
+   (L^ + dL)(U^ + dU) x^ = b + db1 + (L^ + dL) db2 and dA := (L^ + dL)(U^ + dU) - A is bounded by
+   gamma_n + (2 gamma_n + gamma_n^2) <= gamma_{3n} times |L^||U^|.  dA and db are explicit (no choice axiom). *)
+From LibaV Require Import C08.RoundEndToEnd C08.RoundEndToEnd64.
+
+(* a_real_plu + a_real_plu_solve: the computed x^ solves (A + dA) x^ = b + db EXACTLY, row by row of A.  M = pA st is the
+   in-place result (multipliers below the diagonal, U on and above), p = pp st the permutation array of the rounded run,
+   a permutation of 0..n-1; row p[r] of dA is bounded by row r of |L^||U^| (lu_abs_cell), i.e.
+   |dA| <= gamma_{3n} P^T |L^||U^| + (3n + |u_cc|)(1 + gamma_n) eta, and db is O(n) eta, explicit, 0 when eta = 0.
+   lrow n M r j = M[r][j] for j < r and 1 for j = r (the unit lower factor) *)
+Theorem C08_plu_solve_end_to_end : forall rnd eps eta tiny, std_model rnd eps eta -> 0 < tiny ->
+  forall n (A : list R) (p0 : list nat) (b x0 : list R),
+  length A = (n * n)%nat -> length p0 = n -> length b = n -> length x0 = n -> INR (3 * n) * eps < 1 ->
+  exists rc st, plu (Rnd8_ops rnd tiny) n A p0 = Some (rc, st) /\ length (pA st) = (n * n)%nat /\ length (pp st) = n /\
+    (rc = 0%nat \/ rc = 1%nat) /\
+    (rc = 0%nat ->
+       Permutation (pp st) (seq 0 n) /\
+       exists xh (dA : nat -> nat -> R) (db : nat -> R),
+         plu_solve (Rnd8_ops rnd tiny) n (pA st) (pp st) b x0 = Some xh /\ length xh = n /\
+         (forall i, (i < n)%nat -> rsum (fun c => (mg n A i c + dA i c) * nth c xh 0) n = nth i b 0 + db i) /\
+         (forall r c, (r < n)%nat -> (c < n)%nat ->
+            Rabs (dA (nth r (pp st) 0%nat) c)
+            <= gamma eps (3 * n) * lu_abs_cell (mg n (pA st)) r c
+               + (3 * INR n + Rabs (mg n (pA st) c c)) * (1 + gamma eps n) * eta) /\
+         (forall r, (r < n)%nat ->
+            Rabs (db (nth r (pp st) 0%nat))
+            <= 3 * INR r * (1 + gamma eps r) * eta
+               + (1 + gamma eps n)
+                 * rsum (fun j => Rabs (lrow n (pA st) r j)
+                                  * ((3 * INR (n - j) + Rabs (mg n (pA st) j j)) * (1 + gamma eps (n - j)) * eta)) (S r)) /\
+         (eta = 0 -> forall i, (i < n)%nat -> db i = 0)).
+Proof. exact C08.RoundEndToEnd.plu_solve_end_to_end. Qed.
+Print Assumptions C08_plu_solve_end_to_end.
+
+(* the same, indexed by the rows of P A (row r of P A is row p[r] of A, entry r of P b is b[p[r]]) *)
+Theorem C08_plu_solve_end_to_end_rows_of_PA : forall rnd eps eta tiny, std_model rnd eps eta -> 0 < tiny ->
+  forall n (A : list R) (p0 : list nat) (b x0 : list R),
+  length A = (n * n)%nat -> length p0 = n -> length b = n -> length x0 = n -> INR (3 * n) * eps < 1 ->
+  exists rc st, plu (Rnd8_ops rnd tiny) n A p0 = Some (rc, st) /\ length (pA st) = (n * n)%nat /\ length (pp st) = n /\
+    (rc = 0%nat \/ rc = 1%nat) /\
+    (rc = 0%nat ->
+       Permutation (pp st) (seq 0 n) /\
+       exists xh (dA : nat -> nat -> R) (db : nat -> R),
+         plu_solve (Rnd8_ops rnd tiny) n (pA st) (pp st) b x0 = Some xh /\ length xh = n /\
+         (forall r, (r < n)%nat ->
+            rsum (fun c => (mg n A (nth r (pp st) 0%nat) c + dA r c) * nth c xh 0) n
+            = nth (nth r (pp st) 0%nat) b 0 + db r) /\
+         (forall r c, (r < n)%nat -> (c < n)%nat ->
+            Rabs (dA r c)
+            <= gamma eps (3 * n) * lu_abs_cell (mg n (pA st)) r c
+               + (3 * INR n + Rabs (mg n (pA st) c c)) * (1 + gamma eps n) * eta) /\
+         (forall r, (r < n)%nat ->
+            Rabs (db r)
+            <= 3 * INR r * (1 + gamma eps r) * eta
+               + (1 + gamma eps n)
+                 * rsum (fun j => Rabs (lrow n (pA st) r j)
+                                  * ((3 * INR (n - j) + Rabs (mg n (pA st) j j)) * (1 + gamma eps (n - j)) * eta)) (S r))).
+Proof. exact C08.RoundEndToEnd.plu_solve_end_to_end_PA. Qed.
+Print Assumptions C08_plu_solve_end_to_end_rows_of_PA.
+
+(* a_real_ldl_upper (x_c /= d_c FIRST, then the subtractions) in perturbed form: x^ solves (D L^T + dU) x^ = y + db
+   exactly; dlt n L c k = d_c l_kc for c < k and d_c for k = c is the cell (c,k) of D L^T read from the in-place storage *)
+Theorem C08_ldl_upper_solve_perturbed_system : forall rnd eps eta tiny, std_model rnd eps eta ->
+  forall n (L y : list R), length L = (n * n)%nat -> length y = n ->
+  (forall r, (r < n)%nat -> mg n L r r <> 0) -> INR n * eps < 1 ->
+  exists xh (dU : nat -> nat -> R) (db : nat -> R), ldl_upper (Rnd8_ops rnd tiny) n L y = Some xh /\ length xh = n /\
+    forall c, (c < n)%nat ->
+      (forall k, (c <= k)%nat -> Rabs (dU c k) <= gamma eps (n - c) * Rabs (dlt n L c k)) /\
+      Rabs (db c) <= Rabs (mg n L c c) * (3 * INR (n - c) * (1 + gamma eps (n - c)) * eta) /\
+      isum (fun k => (dlt n L c k + dU c k) * nth k xh 0) c n = nth c y 0 + db c.
+Proof. exact C08.RoundEndToEnd.ldl_upper_solve_perturbed. Qed.
+Print Assumptions C08_ldl_upper_solve_perturbed_system.
+
+(* a_real_ldl + a_real_ldl_solve: (A + dA) x^ = b + db EXACTLY, A read as the symmetric matrix of its lower triangle
+   (symlow n A r k = A[max r k][min r k]); Mh the in-place result (d_c on the diagonal, l_rc below);
+   |dA|_rk <= gamma_{3n} (|L^||D^||L^|^T)_rk + (3n + sum_{i <= min r k} |d_i|)(1 + gamma_n) eta, the product read at
+   the cell (max r k, min r k) by ldlt_abs_cell; db is O(n) eta, explicit, 0 when eta = 0 *)
+Theorem C08_ldl_solve_end_to_end : forall rnd eps eta tiny, std_model rnd eps eta -> 0 < tiny ->
+  forall n (A b : list R),
+  length A = (n * n)%nat -> length b = n -> INR (3 * n) * eps < 1 ->
+  exists rc Mh, ldl (Rnd8_ops rnd tiny) n A = Some (rc, Mh) /\ length Mh = (n * n)%nat /\ (rc = 0%nat \/ rc = 1%nat) /\
+    (rc = 0%nat ->
+       exists xh (dA : nat -> nat -> R) (db : nat -> R),
+         ldl_solve (Rnd8_ops rnd tiny) n Mh b = Some xh /\ length xh = n /\
+         (forall r, (r < n)%nat -> rsum (fun k => (symlow n A r k + dA r k) * nth k xh 0) n = nth r b 0 + db r) /\
+         (forall r k, (r < n)%nat -> (k < n)%nat ->
+            Rabs (dA r k)
+            <= gamma eps (3 * n) * ldlt_abs_cell (mg n Mh) (Nat.max r k) (Nat.min r k)
+               + (3 * INR n + rsum (fun i => Rabs (mg n Mh i i)) (S (Nat.min r k))) * (1 + gamma eps n) * eta) /\
+         (forall r, (r < n)%nat ->
+            Rabs (db r)
+            <= 3 * INR r * (1 + gamma eps r) * eta
+               + (1 + gamma eps n)
+                 * rsum (fun c => Rabs (lrow n Mh r c)
+                                  * (Rabs (mg n Mh c c) * (3 * INR (n - c) * (1 + gamma eps (n - c)) * eta))) (S r)) /\
+         (eta = 0 -> forall r, (r < n)%nat -> db r = 0)).
+Proof. exact C08.RoundEndToEnd.ldl_solve_end_to_end. Qed.
+Print Assumptions C08_ldl_solve_end_to_end.
+
+(* IEEE binary64 round-to-nearest-even (u = eps64 = 2^-53, eta64 = 2^-1075, by Flocq), every order with 3 n < 2^53 *)
+Theorem C08_plu_solve_end_to_end_binary64 : forall tiny n (A : list R) (p0 : list nat) (b x0 : list R),
+  0 < tiny -> length A = (n * n)%nat -> length p0 = n -> length b = n -> length x0 = n -> (Z.of_nat (3 * n) < 2 ^ 53)%Z ->
+  exists rc st, plu (Rnd8_ops rnd64 tiny) n A p0 = Some (rc, st) /\ length (pA st) = (n * n)%nat /\ length (pp st) = n /\
+    (rc = 0%nat \/ rc = 1%nat) /\
+    (rc = 0%nat ->
+       Permutation (pp st) (seq 0 n) /\
+       exists xh (dA : nat -> nat -> R) (db : nat -> R),
+         plu_solve (Rnd8_ops rnd64 tiny) n (pA st) (pp st) b x0 = Some xh /\ length xh = n /\
+         (forall i, (i < n)%nat -> rsum (fun c => (mg n A i c + dA i c) * nth c xh 0) n = nth i b 0 + db i) /\
+         (forall r c, (r < n)%nat -> (c < n)%nat ->
+            Rabs (dA (nth r (pp st) 0%nat) c)
+            <= gamma eps64 (3 * n) * lu_abs_cell (mg n (pA st)) r c
+               + (3 * INR n + Rabs (mg n (pA st) c c)) * (1 + gamma eps64 n) * eta64) /\
+         (forall r, (r < n)%nat ->
+            Rabs (db (nth r (pp st) 0%nat))
+            <= 3 * INR r * (1 + gamma eps64 r) * eta64
+               + (1 + gamma eps64 n)
+                 * rsum (fun j => Rabs (lrow n (pA st) r j)
+                                  * ((3 * INR (n - j) + Rabs (mg n (pA st) j j)) * (1 + gamma eps64 (n - j)) * eta64)) (S r)) /\
+         (eta64 = 0 -> forall i, (i < n)%nat -> db i = 0)).
+Proof. exact C08.RoundEndToEnd64.plu_solve_end_to_end_binary64. Qed.
+Print Assumptions C08_plu_solve_end_to_end_binary64.
+
+Theorem C08_ldl_solve_end_to_end_binary64 : forall tiny n (A b : list R),
+  0 < tiny -> length A = (n * n)%nat -> length b = n -> (Z.of_nat (3 * n) < 2 ^ 53)%Z ->
+  exists rc Mh, ldl (Rnd8_ops rnd64 tiny) n A = Some (rc, Mh) /\ length Mh = (n * n)%nat /\ (rc = 0%nat \/ rc = 1%nat) /\
+    (rc = 0%nat ->
+       exists xh (dA : nat -> nat -> R) (db : nat -> R),
+         ldl_solve (Rnd8_ops rnd64 tiny) n Mh b = Some xh /\ length xh = n /\
+         (forall r, (r < n)%nat -> rsum (fun k => (symlow n A r k + dA r k) * nth k xh 0) n = nth r b 0 + db r) /\
+         (forall r k, (r < n)%nat -> (k < n)%nat ->
+            Rabs (dA r k)
+            <= gamma eps64 (3 * n) * ldlt_abs_cell (mg n Mh) (Nat.max r k) (Nat.min r k)
+               + (3 * INR n + rsum (fun i => Rabs (mg n Mh i i)) (S (Nat.min r k))) * (1 + gamma eps64 n) * eta64) /\
+         (forall r, (r < n)%nat ->
+            Rabs (db r)
+            <= 3 * INR r * (1 + gamma eps64 r) * eta64
+               + (1 + gamma eps64 n)
+                 * rsum (fun c => Rabs (lrow n Mh r c)
+                                  * (Rabs (mg n Mh c c) * (3 * INR (n - c) * (1 + gamma eps64 (n - c)) * eta64))) (S r)) /\
+         (eta64 = 0 -> forall r, (r < n)%nat -> db r = 0)).
+Proof. exact C08.RoundEndToEnd64.ldl_solve_end_to_end_binary64. Qed.
+Print Assumptions C08_ldl_solve_end_to_end_binary64.
+(* non-vacuity: RoundEndToEnd.plu_end_to_end_2x2_scale / ldl_end_to_end_2x2_scale apply the theorems to the 2x2 runs of
+   RoundFactor.v with the inexact rounding v -> v (1 + 1/8) (eps = 1/8, n = 2: 3 n eps = 3/4 < 1, the runs succeed);
+   plu_solve_2x2_scale_values / ldl_solve_2x2_scale_values evaluate the computed solutions, which are not the exact ones
+   (the residuals of A x^ = b are not zero); binary64 with tiny = DBL_MIN and n = 100:
+   RoundEndToEnd64.plu_end_to_end_binary64_dbl_min_100, gamma64_300. *)
